@@ -32,6 +32,7 @@ func c12R1(c *Ctx, r *Report) {
 	reviewed := map[string]string{
 		"semantics/typechecker.inferScopeResolutionExprType": "the same ScopeResolutionExpr node is checked by resolver.resolveStaticAccess in the preceding phase, which reports non-exported symbols (C12.R2 traversal); inference only maps the symbol to a type",
 		"semantics/collector.collectMethodDeclSignature":     "looks up the receiver *type* to attach a method; methods on types of other modules are rejected outright (TestCrossModuleMethodRestriction)",
+		"semantics/typechecker.lookupNamedTypeSymbol":        "resolves the declaration of a NamedType an expression already has through the module the type records (C12.R9); never called with a name written by the user",
 		"semantics/typechecker.lookupTypeSymbol":             "called only with the name of a NamedType an expression already has (method lookup, interface satisfaction), never with a name written by the user; a value of a private type can legitimately arrive through an exported function",
 	}
 	n := 0
